@@ -13,7 +13,7 @@ use crate::engine::{pick_idx, CaseCtx, CheckResult, Ctx, Tier};
 use crate::gen::*;
 use crate::model::time::{render, Instant, TsStyle};
 use crate::model::verify::Carrier;
-use crate::props::{self, c01, c02, c03, c04, c05, c08, c09, c10, c11, c12, c15, c16, c19};
+use crate::props::{self, c01, c02, c03, c04, c05, c06, c08, c09, c10, c11, c12, c15, c16, c18, c19};
 use crate::types::*;
 use serde::Serialize;
 use std::sync::OnceLock;
@@ -459,6 +459,34 @@ pub fn one(data: &[u8]) {
             case.filler = c.u16() % 300;
             let r = c19::check_dup(&case, &mut cc);
             settle(st, "duplicates", &case, r);
+        }
+        "C18" => {
+            let plan = decode_plan(&mut c);
+            let n = 1 + c.pick(6);
+            let steps = (0..n).map(|_| (c.u8() % 18, c.u16(), c.bool())).collect();
+            let case = c18::Siblings { plan, steps };
+            let r = c18::check_siblings(&case, &mut cc);
+            settle(st, "siblings-in-sequence", &case, r);
+        }
+        "C06" => {
+            let text = |c: &mut Cur| -> String {
+                match c.pick(4) {
+                    0 => REGIONS[c.pick(REGIONS.len())].to_string(),
+                    1 => SERVICES[c.pick(SERVICES.len())].to_string(),
+                    _ => String::from_utf8_lossy(&c.bytes(10)).to_string(),
+                }
+            };
+            let mut secret = String::from_utf8_lossy(&c.bytes(40)).to_string();
+            while secret.len() > 40 {
+                secret.pop();
+            }
+            let (y, m, d) = (1 + c.u16() as i32 % 9999, 1 + c.pick(12) as u32, 1 + c.pick(28) as u32);
+            let (region, service) = (text(&mut c), text(&mut c));
+            let n = 1 + c.pick(5);
+            let steps = (0..n).map(|_| (c.u8() % 12, text(&mut c), c.u16())).collect();
+            let case = c06::DeriveSeq { first: c06::Derive { trace: false, secret, y, m, d, region, service }, steps };
+            let r = c06::check_derive_seq(&case, &mut cc);
+            settle(st, "consecutive-derivations", &case, r);
         }
         _ => {}
     }
